@@ -190,6 +190,7 @@ def cli_check(V, pop, k):
             args = [inp, "-d", od, "--print-full-values", "--total-costs"]
             for s in gen.init_args(h.get("init", {})):
                 args += ["-b", s]
+            common.prefill_output_dir(od, [inp])       # the directory already holds a longer, older report
             r = common.run_cli("acb", args, home=wd)
             if r["rc"] != 0:
                 V.violation("acb --total-costs -d failed where the library succeeded [%s]" % name,
